@@ -325,6 +325,10 @@ func c07RunPeer(p c07Peer) (obs, sig, msg string) {
 				switch {
 				case p.discover == "mnf":
 					reply(`"error":{"code":-32601,"message":"method not found"}`)
+				case strings.HasPrefix(p.discover, "err:"):
+					// servers that predate discovery refuse the unknown request with whatever code
+					// their framework uses for it
+					reply(`"error":{"code":` + strings.TrimPrefix(p.discover, "err:") + `,"message":"cannot serve server/discover"}`)
 				case strings.HasPrefix(p.discover, "unsupported:"):
 					reply(`"error":{"code":-32022,"message":"unsupported protocol version","data":{"supported":` + strings.TrimPrefix(p.discover, "unsupported:") + `,"requested":"x"}}`)
 				default:
@@ -595,7 +599,7 @@ func TestVerifC07(t *testing.T) {
 		}
 	}
 	peers := env.NewCases(res, "scripted-non-sdk-servers")
-	for _, d := range []string{"mnf", `["2026-07-28"]`, `["2026-07-28","2025-06-18"]`, `["2025-06-18"]`, `["2027-01-01"]`, `["2099-01-01"]`, `["2099-01-01","2026-07-28"]`, `[]`, `unsupported:["2026-07-28"]`, `unsupported:["2025-03-26"]`, `unsupported:["2031-01-01"]`} {
+	for _, d := range []string{"mnf", "err:-32602", "err:-32600", "err:-32603", "err:0", "err:-32000", "err:-32001", "err:-32700", "err:1", `["2026-07-28"]`, `["2026-07-28","2025-06-18"]`, `["2025-06-18"]`, `["2027-01-01"]`, `["2099-01-01"]`, `["2099-01-01","2026-07-28"]`, `[]`, `unsupported:["2026-07-28"]`, `unsupported:["2025-03-26"]`, `unsupported:["2031-01-01"]`} {
 		for _, i := range []string{"echo", "2025-03-26", "1990-01-01", "2025-01-01", "2030-01-01", "2026-07-28", ""} {
 			for _, r := range []string{"", "2025-06-18", "2099-01-01"} {
 				idx, mine := peers.Next()
@@ -611,7 +615,8 @@ func TestVerifC07(t *testing.T) {
 	// servers that predate server/discover do it; the client must fall back to initialize
 	httpPeers := env.NewCases(res, "scripted-legacy-http-servers")
 	for _, kind := range []string{"streamable", "sse"} {
-		for _, d := range []string{"404-bare", "404-jsonrpc-mnf", "400-plain", "400-jsonrpc-mnf", "405-bare", "200-jsonrpc-mnf"} {
+		for _, d := range []string{"404-bare", "404-jsonrpc-mnf", "400-plain", "400-jsonrpc-mnf", "405-bare", "200-jsonrpc-mnf",
+			"400-jsonrpc-code-32602", "400-jsonrpc-code-32600", "400-jsonrpc-code-32603", "200-jsonrpc-code-32602", "200-jsonrpc-code-32600", "200-jsonrpc-code-32603", "200-jsonrpc-code0"} {
 			for _, r := range []string{"", "2026-07-28", "2099-01-01"} {
 				idx, mine := httpPeers.Next()
 				if !mine {
@@ -672,6 +677,10 @@ func c07RunHTTPPeer(kind, discover, requested string) (obs, sig, msg string) {
 			seen = append(seen, m.Method)
 		}
 		mnf := `{"jsonrpc":"2.0","id":` + string(m.ID) + `,"error":{"code":-32601,"message":"method not found"}}`
+		if i := strings.Index(discover, "jsonrpc-code"); i >= 0 {
+			// (the same refusals carrying another JSON-RPC error code)
+			mnf = `{"jsonrpc":"2.0","id":` + string(m.ID) + `,"error":{"code":` + discover[i+len("jsonrpc-code"):] + `,"message":"cannot serve server/discover"}}`
+		}
 		switch {
 		case req.Method == "GET" && kind == "sse" && strings.HasSuffix(req.URL.Path, "/sse"):
 			r := mk(200, "text/event-stream", "")
@@ -690,7 +699,7 @@ func c07RunHTTPPeer(kind, discover, requested string) (obs, sig, msg string) {
 				return mk(404, "application/json", mnf), nil
 			case "400-plain":
 				return mk(400, "text/plain", "unknown method\n"), nil
-			case "400-jsonrpc-mnf":
+			case "400-jsonrpc-mnf", "400-jsonrpc-code-32602", "400-jsonrpc-code-32600", "400-jsonrpc-code-32603":
 				return mk(400, "application/json", mnf), nil
 			case "405-bare":
 				return mk(405, "", ""), nil
